@@ -1,4 +1,4 @@
-CONSTANTS NDecl = 240 NPair = 60 NLong = 5
+CONSTANTS NDecl = 220
 SPECIFICATION Spec
 INVARIANTS LegalMethodName OmitsOnlyNone FormsAgree Export
 CHECK_DEADLOCK FALSE
